@@ -672,6 +672,7 @@ class Tracer:
         self._aggsites = None
         self.memo = {}
         self.inprogress = set()
+        self.bindings = {}      # ('param', crate, def, i) -> node, while looking through a local helper call
 
     # ---- indexes
     def callers(self, def_):
@@ -862,6 +863,8 @@ class Tracer:
 
     def expand(self, node, upvars=True, params=False, limit=12):
         """Rewrite a node bottom-up resolving upvars (and optionally params) inter-procedurally."""
+        if self.bindings:
+            return self._expand(node, upvars, params, limit)
         mk = ("expand", node, upvars, params)
         if mk in self.memo:
             return self.memo[mk]
@@ -878,6 +881,8 @@ class Tracer:
                 if r is nd:
                     return nd
                 return rec(r, fuel - 1)
+            if nd[0] == "param" and nd in self.bindings:
+                return self.bindings[nd]
             if nd[0] == "param" and params:
                 r = self.resolve_param(nd)
                 if r is nd:
@@ -898,6 +903,57 @@ class Tracer:
                 return ("unop", nd[1], rec(nd[2], fuel))
             return nd
         return rec(node, limit)
+
+    # ---- looking through calls of workspace-local synchronous helpers
+    def local_sync_callee(self, node):
+        """body of the workspace-local, non-async function a call node resolves to (or None)"""
+        if node[0] != "call":
+            return None
+        c = self.call_of(node)
+        for d in c.targets_def():
+            hb = self.facts.bodies.get(d)
+            if hb is not None and hb.kind == "fn" and not hb.j.get("is_async"):
+                return hb
+        return None
+
+    def bound(self, hb, callnode):
+        """context manager: parameters of helper `hb` stand for the arguments of the call `callnode`"""
+        tr = self
+        c = self.call_of(callnode)
+        new = {}
+        for i, a in enumerate(c.args):
+            new[("param", hb.crate.name, hb.def_, i + 1)] = self.expand(self.operand(c.g.b, a, c.loc), upvars=True)
+
+        class _Ctx:
+            def __enter__(self_):
+                self_.saved = dict(tr.bindings)
+                tr.bindings.update(new)
+
+            def __exit__(self_, *a):
+                tr.bindings.clear()
+                tr.bindings.update(self_.saved)
+        return _Ctx()
+
+    def helper_returns(self, hb):
+        """origins of the values a helper returns (whole assignments to _0 and call results into _0)"""
+        out = []
+        g = graph(hb)
+        for i, blk in enumerate(hb.blocks):
+            for j, s in enumerate(blk["stmts"]):
+                if s["k"] == "assign" and s["lhs"]["l"] == 0 and not s["lhs"]["p"]:
+                    rv = s["rv"]
+                    if rv["k"] == "use":
+                        out.append(self.expand(self.operand(hb, rv["op"], (i, j)), upvars=True))
+                    elif rv["k"] == "agg":
+                        out.append(("agg", hb.crate.name, hb.def_, i, j))
+                    else:
+                        for d in g.deflist:
+                            if d[1] == i and d[2] == j:
+                                out.append(self.expand(self._defnode(hb, g, d, 0), upvars=True))
+            t = blk["term"]
+            if t["k"] == "call" and t["dest"]["l"] == 0 and not t["dest"]["p"]:
+                out.append(("call", hb.crate.name, hb.def_, i))
+        return out
 
     def stmt_value(self, body, bb, idx):
         """origin of the value assigned by the assign statement at (bb, idx)"""
